@@ -1578,55 +1578,32 @@ impl Hasher for RecHasher {
 #[kani::proof]
 #[kani::unwind(6)]
 fn c08_exposed_hash() {
+    exposed_hash_case(0);
+    exposed_hash_case(1);
+    exposed_hash_case(2);
+    exposed_hash_case(3);
+}
+fn exposed_hash_case(step: usize) {
     let pb = any_board_raw();
     let st = any_status();
+    kani::assume(step > 0 || matches!(st, PushPullState::None));
     match st {
         PushPullState::MustCompletePush(_, p) => kani::assume(p != Piece::Elephant),
         PushPullState::PossiblePull(_, p) => kani::assume(p != Piece::Rabbit),
         _ => {}
     }
     let (h1, h2): (u64, u64) = (kani::any(), kani::any());
-    let a = play_state_h(&pb, kani::any(), 1, st, kani::any(), h1, kani::any(), 2);
+    let a = play_state_h(&pb, kani::any(), step, st, kani::any(), h1, kani::any(), 2);
     let b = play_state_h(&any_board_raw(), kani::any(), 2, any_status(), kani::any(), h2, kani::any(), 7);
     kani::cover!(h1 == h2);
-    kani::cover!(matches!(st, PushPullState::PossiblePull(_, _)));
-    assert!(a.transposition_hash() == h1 ^ crate::zobrist::verif::pp_value(st), "C08: transposition hash == board/side/step hash ^ push-pull value");
+    kani::cover!(step == 0 || matches!(st, PushPullState::PossiblePull(_, _)));
+    assert!(a.transposition_hash() == h1 ^ crate::zobrist::verif::pp_value(st), "C08/C17: transposition hash == board/side/step hash ^ push-pull value, at every step");
     let setup = GameState::new(kani::any(), 1, Phase::PlacePhase, PieceBoard(pb.clone()), zob(h1));
     assert!(setup.transposition_hash() == h1, "C08: setup-phase hash");
     assert!((a == b) == (h1 == h2), "C08: states compare equal exactly when their board/side/step hashes are equal");
     let mut rh = RecHasher { words: 0, last: 0 };
     a.hash(&mut rh);
     assert!(rh.words == 1 && rh.last == h1, "C08: Hash feeds exactly the board/side/step hash");
-}
-// ===========================================================================
-// C05 h5: the history leaf on the real list (BOUNDED).  Everything above uses the oracle.
-// ===========================================================================
-// @obl props=C05,C06,C19 tier=quick kind=harness-contract mem=4 est=60
-// @bounded history lists of length <= 4
-// @fns hash_history_contains_hash_twice List::iter Iter::next List::append
-// @clause for histories of length <= 4 and every hash h: hash_history_contains_hash_twice(history, h) <=> h occurs at least twice among the entries
-#[kani::proof]
-#[kani::unwind(7)]
-fn c05_twice_leaf() {
-    let n: usize = kani::any();
-    kani::assume(n <= 4);
-    let e: [u64; 4] = [kani::any(), kani::any(), kani::any(), kani::any()];
-    let h: u64 = kani::any();
-    let mut l: List<Zobrist> = List::new();
-    let mut occurrences = 0;
-    let mut k = 0;
-    while k < 4 {
-        if k < n {
-            l = l.append(zob(e[k]));
-            if e[k] == h {
-                occurrences += 1;
-            }
-        }
-        k += 1;
-    }
-    kani::cover!(occurrences == 2);
-    kani::cover!(occurrences == 3);
-    assert!(hash_history_contains_hash_twice(&l, &zob(h)) == (occurrences >= 2), "C05: 'already occurred twice' is decided by counting the recorded turn-start hashes");
 }
 // ===========================================================================
 // C10: all views of the board agree
